@@ -51,9 +51,27 @@ class P:
         return a
     def neg(self, atom, nm):
         if self.peek() == "!":
-            self.eat(); return "%s.not (%s)" % (nm, self.neg(atom, nm))
+            self.eat()
+            # `!` binds tighter than a comparison: `!s.len() > 16` is `(!s.len()) > 16`, a BITWISE not on a number.  Only a parenthesised
+            # condition or a boolean method call may follow.
+            if self.peek() == "!":
+                return "%s.not (%s)" % (nm, self.neg(atom, nm))
+            if self.peek() == "(":
+                self.eat(); a = self.disj(atom, nm); self.eat(")")
+                if self.peek() in (">", "<", ">=", "<=", "==", "!=", "as"):
+                    raise Unsupported("`!( .. )` used as a number")
+                return "%s.not (%s)" % (nm, a)
+            if not (self.peek() == self.var and self.t[self.i + 1:self.i + 2] == ["."] and self.t[self.i + 2:self.i + 3] and self.t[self.i + 2].startswith("is_")):
+                raise Unsupported("`!` in front of something that is not a boolean method call")
+            a = atom()
+            if self.peek() in (">", "<", ">=", "<=", "==", "!=", "as"):
+                raise Unsupported("`!x` compared as a number")
+            return "%s.not (%s)" % (nm, a)
         if self.peek() == "(":
-            self.eat(); a = self.disj(atom, nm); self.eat(")"); return a
+            self.eat(); a = self.disj(atom, nm); self.eat(")")
+            if self.peek() in (">", "<", ">=", "<=", "==", "!=", "as"):
+                raise Unsupported("a parenthesised condition used as a number")
+            return a
         return atom()
     def method(self):
         self.eat(self.var); self.eat("."); m = self.eat(); self.eat("("); self.eat(")")
@@ -62,7 +80,7 @@ class P:
     def catom(self):
         m = self.method()
         d = {"is_ascii": "CPred.isAscii", "is_ascii_control": "CPred.isAsciiControl", "is_control": "CPred.isControl",
-             "is_ascii_graphic": "CPred.isAsciiGraphic", "is_ascii_alphanumeric": "CPred.isAlphanumeric"}
+             "is_ascii_graphic": "CPred.isAsciiGraphic", "is_ascii_alphanumeric": "CPred.isAsciiAlphanumeric"}
         if m not in d: raise Unsupported("char method " + m)
         return d[m]
     # strings
